@@ -309,6 +309,17 @@ mut("c13-formatter-asked-elsewhere", "C13", "C13.R1", (FM, "        let (start, 
 # ---------------------------------------------------------------- rules added after the sub-agent rounds
 mut("c08-empty-body-accepted", "C08", "C08.R3", (TK, "                None => (None, State::InDelimiter),", "                None => get_state(c, delimiter_start, delimiter_end, State::InDelimiter),"))
 mut("c16-lines-trimmed", "C16", "C16.R5", (LS, '.map(|l| format!("{line_column}{l}\\n"))', '.map(|l| format!("{line_column}{}\\n", l.trim_end()))'))
+mut("c13-scanner-tab-not-blank", "C13", "C13.R7", (LB, "        Some(b'\\t') => CheckResult::Skip,\n        Some(b'\\n') => CheckResult::Found,", "        Some(b'\\n') => CheckResult::Found,"))
+mut("c13-scanner-nonpausing-stops", "C13", "C13.R7", (LB, "            CheckResult::None => {\n                if pause_on_char {\n                    break None;\n                }\n            }\n        }\n\n        cursor += 1;", "            CheckResult::None => {\n                break None;\n            }\n        }\n\n        cursor += 1;"))
+mut("c12-char-finder-gives-up-on-tab", "C12", "C12.D:C13.R7", (CP, "        Some(b'\\t') => CheckResult::Skip,\n", "        Some(b'\\t') => CheckResult::None,\n"))
+mut("c11-nonpausing-scan-stops-c11", "C11", "C11.D:C13.R7", (LB, "            CheckResult::None => {\n                if pause_on_char {\n                    break None;\n                }\n            }\n        }\n\n        cursor += 1;", "            CheckResult::None => {\n                break None;\n            }\n        }\n\n        cursor += 1;"))
+mut("c13-indent-line-break-included", "C13", "C13.R6", (IR, "                    Some(b'\\n') => {\n                        cursor += 1;\n                        break true;", "                    Some(b'\\n') => {\n                        break true;"))
+mut("c02-indent-begins-two-behind", "C02", "C02.R4", (IR, "                    Some(b'\\n') => {\n                        cursor += 1;\n                        break true;", "                    Some(b'\\n') => {\n                        cursor -= 1;\n                        break true;"))
+mut("c16-frame-start-marker-dropped", "C16", "C16.R8", (LS, "    result.push_str(MARKER_START);\n", ""))
+mut("c16-frame-markers-swapped", "C16", "C16.R8", (LS, "    result.push_str(MARKER_START);\n", "    result.push_str(MARKER_END);\n"), (LS, "    result.push_str(MARKER_END);\n    result.push_str(reset_color);\n\n    result", "    result.push_str(MARKER_START);\n    result.push_str(reset_color);\n\n    result"))
+mut("c16-frame-no-break-after-start", "C16", "C16.R8", (LS, "    result.push_str(reset_color);\n    result.push('\\n');\n", "    result.push_str(reset_color);\n"))
+mut("c16-frame-end-marker-conditional", "C16", "C16.R8", (LS, "    result.push_str(MARKER_END);\n", "    if coloring || line_number_ofs > 0 {\n        result.push_str(MARKER_END);\n    }\n"))
+mut("c16-frame-glyph-renamed", "C16", "C16.R8", (LS, 'const MARKER_END: &str = "‾end";', 'const MARKER_END: &str = "^end";'))
 mut("c17-squash-by-start-only", "C17", "C17.R4", (RM, "                let can_squash =\n                    range.contains(&pending_range.start) && pending_range.end <= range.end;", "                let can_squash = range.contains(&pending_range.start);"))
 mut("c17-marker-evaluator-conditional", "C17", "C17.R5", (CH, "    builder_map.insert(\n        config.removal_marker_configuration.tag_name,", "    if !config.removal_marker_configuration.targets.is_empty() {\n    builder_map.insert(\n        config.removal_marker_configuration.tag_name.clone(),"), (CH, "                marker_removal_names: config.removal_marker_configuration.targets,\n            },\n        ),\n    );", "                marker_removal_names: config.removal_marker_configuration.targets,\n            },\n        ),\n    );\n    }"))
 mut("c14-output-normalised", "C14", "C14.R6", (CH, "    formatter::format(&removed, &removed_pos, &formatter, &structure_formatters)\n}", "    formatter::format(&removed, &removed_pos, &formatter, &structure_formatters).replace(\"\\r\\n\", \"\\n\")\n}"))
@@ -403,7 +414,7 @@ rmut("rf-par-4+closing-by-prefix", "par-4", "C10", "C10.R", (PA, ".any(|parent_e
 rmut("rf-par-4+mismatch-accepted", "par-4", "C10", "C10.R", (PA, "Some((end_token, end_el)) if el.name == end_el.name.strip_prefix(\"/\").unwrap_or(end_el.name) => {", "Some((end_token, end_el)) if el.name.len() == end_el.name.strip_prefix(\"/\").unwrap_or(end_el.name).len() => {"))
 
 # round 2 of the refactorings
-rmut("rf-fmt-r2-2+found-off-by-one", "fmt-r2-2", "C02", "C02.R", (IR, "b'\\n' => return (cursor + 1, byte_pos),", "b'\\n' => return (cursor, byte_pos),"))
+rmut("rf-fmt-r2-2+found-off-by-one", "fmt-r2-2", "C13", "C13.R6", (IR, "b'\\n' => return (cursor + 1, byte_pos),", "b'\\n' => return (cursor, byte_pos),"))
 rmut("rf-fmt-r2-2+skips-anything", "fmt-r2-2", "C02", "C02.R", (IR, "                _ => break,\n", "                _ => {}\n"))
 rmut("rf-fmt-r2-4+merges-neighbours", "fmt-r2-4", "C02", "C02.R3b", (FM, "Some(last) if last.end >= range.start =>", "Some(last) if last.end + 1 >= range.start =>"))
 rmut("rf-lst-r2-3+found-plus-one", "lst-r2-3", "C01", "C01.S", (LB, "CheckResult::Found => ControlFlow::Break(Some(cursor)),", "CheckResult::Found => ControlFlow::Break(Some(cursor + 1)),"))
@@ -461,6 +472,25 @@ rmut("rf-rem-r7-3+named-head-index-off-by-one", "rem-r7-3", "C12", "C12.R4", (RM
 rmut("rf-tokpar-r7-2+named-guard-inverted", "tokpar-r7-2", "C07", "C07.R6", (TK, "if !is_empty_token {", "if is_empty_token {"))
 rmut("rf-fmt-r7-2+helper-returns-line-break-itself", "fmt-r7-2", "C02", "C02.R", (IR, "LINE_BREAK => return Some(cursor + 1),", "LINE_BREAK => return Some(cursor.saturating_sub(1)),"))
 rmut("rf-rem-r7-2+while-let-skips-squash-end", "rem-r7-2", "C17", "C17.R4", (RM, "pending_range.end <= range.end", "pending_range.end < range.end"))
+# round 8 (holdout) forms
+rmut("rf-rem-r8-1+early-return-drops-ready", "rem-r8-1", "C03", "C03.R1-3", (RM, "                let parser::ContentPart::Element(el) = c else {\n                    return (removal_tree, pending_removal_tree);\n                };", "                let parser::ContentPart::Element(el) = c else {\n                    return (vec![], pending_removal_tree);\n                };"))
+rmut("rf-rem-r8-1+filter-inverted", "rem-r8-1", "C04", "C04.R1", (RM, ".filter(|((range, _), _)| !range.is_empty())", ".filter(|((range, _), _)| range.is_empty())"))
+rmut("rf-rem-r8-1+pending-as-ready", "rem-r8-1", "C17", "C17.R1", (RM, "create(el, &self.remove_strategies).map(|f| (f, is_removal))", "create(el, &self.remove_strategies).map(|f| (f, true))"))
+rmut("rf-rem-r8-2+tail-skips-one-more", "rem-r8-2", "C17", "C17.R2", (RM, "                .skip(range_cursor)\n", "                .skip(range_cursor + 1)\n"))
+rmut("rf-rem-r8-2+tail-of-ready-list", "rem-r8-2", "C17", "C17.R2", (RM, "            ranges_pending\n                .into_iter()\n                .skip(range_cursor)\n                .map(|pending| (pending, false)),", "            ranges_pending\n                .into_iter()\n                .skip(range_cursor)\n                .step_by(2)\n                .map(|pending| (pending, false)),"))
+rmut("rf-rem-r8-3+window-inclusive", "rem-r8-3", "C12", "C12.R4", (RM, "pair.filter(|p| kept.contains(p))", "pair.filter(|p| (kept.start..=kept.end).contains(p))"))
+rmut("rf-rem-r8-3+rebase-dropped", "rem-r8-3", "C12", "C12.R4", (RM, ".map(|p| p - kept.start + new_start)", ".map(|p| p + new_start)"))
+rmut("rf-rem-r8-3+head-index-off", "rem-r8-3", "C12", "C12.R4", (RM, "acc.push((marker, Some(current + kept.len() + 1)));", "acc.push((marker, Some(current + kept.len())));"))
+rmut("rf-rem-r8-3+window-is-a-marker", "rem-r8-3", "C01", "C01.", (RM, "acc.push((end_marker, Some(current)));", "acc.push((kept.clone(), Some(current)));"))
+rmut("rf-par-r8-2+prefix-trimmed-repeatedly", "par-r8-2", "C10", "C10.R", (PA, "    name.strip_prefix(CLOSING_PREFIX).unwrap_or(name)\n", "    name.trim_start_matches(CLOSING_PREFIX)\n"))
+rmut("rf-par-r8-2+other-prefix", "par-r8-2", "C10", "C10.R", (PA, 'const CLOSING_PREFIX: &str = "/";', 'const CLOSING_PREFIX: &str = "\\\\";'))
+rmut("rf-lst-r8-2+colour-twice", "lst-r8-2", "C16", "C16.R2", (LS, "    for part in parts {\n        out.push_str(part);\n    }", "    for part in parts {\n        out.push_str(part);\n    }\n    out.push_str(parts[0]);"))
+rmut("rf-lst-r8-2+marker-dropped", "lst-r8-2", "C16", "C16.R", (LS, "[marker_end_color, MARKER_END, reset_color],", "[marker_end_color, reset_color, reset_color],"))
+rmut("rf-ep-r8-2+value-to-name", "ep-r8-2", "C09", "C09.R1", (EP, "                                    let (_, value) = pairs.last_mut().expect(\"a name precedes '='\");\n                                    *value = Some(&target[start..pos]);\n                                    state = State::NameBegin\n                                }\n                            }\n                            State::ValueWithSingleQuote", "                                    let (value, _) = pairs.last_mut().expect(\"a name precedes '='\");\n                                    *value = &target[start..pos];\n                                    state = State::NameBegin\n                                }\n                            }\n                            State::ValueWithSingleQuote"))
+rmut("rf-ep-r8-2+name-skipped", "ep-r8-2", "C09", "C09.R", (EP, "            let (name, _) = words.next()?;\n", "            words.next()?;\n            let (name, _) = words.next()?;\n"))
+rmut("rf-lst-r9-3+tuple-marker-dropped", "lst-r9-3", "C16", "C16.R8", (LS, "        (marker_end_color, MARKER_END, reset_color),", "        (marker_end_color, reset_color, reset_color),"))
+rmut("rf-fmt-r8-2+line-break-included", "fmt-r8-2", "C13", "C13.R6", (IR, "b'\\n' => break Some(cursor + 1),", "b'\\n' => break Some(cursor),"))
+rmut("rf-fmt-r8-2+any-byte-ends-indent", "fmt-r8-2", "C02", "C02.R", (IR, "                _ => break None,\n", "                _ => break Some(cursor + 1),\n"))
 
 with open(os.path.join(os.path.dirname(os.path.abspath(__file__)), "mutants.json"), "w") as f:
     json.dump(C, f, indent=1)
